@@ -35,9 +35,9 @@ import (
 
 // panicWatch is an slog handler that counts the recovery middleware's record.
 type panicWatch struct {
-	mu    sync.Mutex
-	n     int
-	last  string
+	mu   sync.Mutex
+	n    int
+	last string
 }
 
 func (p *panicWatch) Enabled(context.Context, slog.Level) bool { return true }
@@ -78,7 +78,10 @@ func TestCheck(t *testing.T) {
 	vk.Exit(0)
 }
 
-var hostile = []string{"..", "../x", "../../c19-escape", "/abs/c19", "a/b", "%2e%2e%2fx", "..%2f..%2fc19-escape2", "nul\x00name", "ünï-中", strings.Repeat("L", 4096), " ", "nsA/../../c19-escape3"}
+var hostile = []string{"..", "../x", "../../c19-escape", "/abs/c19", "a/b", "%2e%2e%2fx", "..%2f..%2fc19-escape2", "nul\x00name", "ünï-中", strings.Repeat("L", 4096), " ", "nsA/../../c19-escape3",
+	// names that resolve to the existing sentinel tree from every directory a path may be derived
+	// from (data dir, data dir/arenas, one level deeper), and bytes that are not UTF-8
+	"../sentinel", "../../sentinel", "../../sentinel/sub", "../../../sentinel", "../../../../sentinel", "\xff\xfe"}
 
 // sentinelState hashes the directory tree next to the data directory.
 func sentinelState(parent, dataDir string) string {
@@ -267,11 +270,16 @@ func run(c *vk.Ctx) {
 	_ = tmpls
 	parent, _ := os.MkdirTemp(vk.TmpRoot(), "c19-")
 	defer os.RemoveAll(parent)
-	os.MkdirAll(filepath.Join(parent, "sentinel", "sub"), 0o755)
-	os.WriteFile(filepath.Join(parent, "sentinel", "keep.txt"), []byte("do not touch"), 0o644)
-	os.WriteFile(filepath.Join(parent, "sentinel", "sub", "keep2.txt"), []byte("do not touch either"), 0o644)
 	dataDir := filepath.Join(parent, "deep", "er", "data")
 	os.MkdirAll(dataDir, 0o755)
+	// a sentinel tree next to the data directory and in each of its ancestors: "../sentinel" …
+	// "../../../../sentinel" then name an existing directory from whichever directory a path is
+	// derived from (the data directory, data/arenas, one level deeper)
+	for _, base := range []string{parent, filepath.Join(parent, "deep"), filepath.Join(parent, "deep", "er")} {
+		os.MkdirAll(filepath.Join(base, "sentinel", "sub"), 0o755)
+		os.WriteFile(filepath.Join(base, "sentinel", "keep.txt"), []byte("do not touch"), 0o644)
+		os.WriteFile(filepath.Join(base, "sentinel", "sub", "keep2.txt"), []byte("do not touch either"), 0o644)
+	}
 	sent0 := sentinelState(parent, dataDir)
 	v, err := srvx.OpenEnvAuth(dataDir, "")
 	if err != nil {
@@ -396,6 +404,11 @@ func run(c *vk.Ctx) {
 			// the route's own valid body followed by garbage / by a second document is not JSON
 			send(route, method, base, srvx.JSON(valid)+" trailing garbage", "notjson", true)
 			send(route, method, base, srvx.JSON(valid)+srvx.JSON(valid), "notjson", true)
+			// ... followed by a stray closing bracket (what json.Decoder.More() does not see), a comma,
+			// a colon: every one of them makes the body not JSON
+			for _, tail := range []string{"}", "]", "} DROP EVERYTHING", "]]", ",", ":", "}{", " ,{}"} {
+				send(route, method, base, srvx.JSON(valid)+tail, "notjson", true)
+			}
 			send(route, method, base, srvx.JSON(valid)+"\n  \n", "free", true)
 			for _, m := range mutations(valid, c.Thorough()) {
 				send(route, method, base, m.body, m.kind, true)
@@ -453,7 +466,7 @@ func run(c *vk.Ctx) {
 	// chains: create an index under every hostile name, write to it, link, compress, snapshot,
 	// drop it — each step may derive file-system paths from the name
 	if c.F.Shard == 0 {
-		for _, h := range append(append([]string(nil), hostile...), "../../../sentinel", "../../../sentinel/sub", "..\\..\\x") {
+		for _, h := range append(append([]string(nil), hostile...), "../../../sentinel/sub", "..\\..\\x") {
 			hb, _ := json.Marshal(h)
 			name := string(hb)
 			steps := []struct{ method, path, body string }{
@@ -476,6 +489,27 @@ func run(c *vk.Ctx) {
 			if st := sentinelState(parent, dataDir); st != sent0 {
 				c.Violate("C19 files-outside-data-dir chain", fmt.Sprintf("index name %q: the directory tree next to the data directory changed:\n%s", h, diffLines(sent0, st)),
 					map[string]any{"property": "C19", "harness": "c19", "part": "chain", "name": h})
+				sent0 = st
+			}
+			// rejected requests only, then a restart while their records (if any were journaled)
+			// are still in the log: replay derives paths from the names too
+			for _, st := range []struct{ method, path, body string }{
+				{"DELETE", "/vector/indexes/" + urlEscape(h), ``},
+				{"POST", "/vector/actions/create", `{"index_name":` + name + `,"metric":"euclidean","precision":"float32"}`},
+				{"POST", "/vector/actions/compress", `{"index_name":` + name + `,"precision":"float16"}`},
+			} {
+				send("chain-restart", st.method, st.path, st.body, "free", false)
+			}
+			v.E.Close()
+			v2, err := srvx.OpenEnvAuth(dataDir, "")
+			if err != nil {
+				c.Violate("C19 restart-failed-after-hostile-name", fmt.Sprintf("index name %q: %v", h, err), map[string]any{"property": "C19", "harness": "c19", "part": "chain-restart", "name": h})
+				break
+			}
+			*v = *v2
+			if st := sentinelState(parent, dataDir); st != sent0 {
+				c.Violate("C19 files-outside-data-dir after-restart", fmt.Sprintf("index name %q: after a restart the directory tree next to the data directory changed:\n%s", h, diffLines(sent0, st)),
+					map[string]any{"property": "C19", "harness": "c19", "part": "chain-restart", "name": h})
 				sent0 = st
 			}
 		}
